@@ -841,7 +841,7 @@ func doParent(spec Spec, tier string, seed int64, b time.Duration, nworkers int)
 		}
 		ok, why := confirm(spec, v, tier, seed)
 		if !ok {
-			fmt.Fprintf(os.Stderr, "NONDETERMINISM: %s\n", why)
+			fmt.Fprintf(os.Stderr, "NONDETERMINISM: %s\n  first report: %s\n  case: %s\n", why, v.What, string(v.Case))
 			return 2
 		}
 		sum := sha256.Sum256(append([]byte(key+"\x00"), v.Case...))
